@@ -104,29 +104,38 @@ class CaseTimeout(BaseException):
     must end in a VIOLATION line, not in a check that never ends)."""
 
 
-CASE_TIMEOUT = float(os.environ.get("VERIF_CASE_TIMEOUT", "60"))
+# The limit is on the CPU time this process spends in one case (ITIMER_PROF), not on wall-clock time: a loaded machine
+# stretches wall-clock time without bound (a 60 s wall-clock limit raised false alarms when several checks ran side by side),
+# whereas a loop that never ends burns CPU.  A generous wall-clock backstop catches a case that blocks without computing.
+CASE_TIMEOUT = float(os.environ.get("VERIF_CASE_TIMEOUT", "90"))          # CPU seconds
+CASE_WALL_BACKSTOP = float(os.environ.get("VERIF_CASE_WALL", "1500"))      # wall-clock seconds
 MAX_HANGS = 2
 _hang = {"fired": False}
 
 
 def _alarm(signum, frame):
     _hang["fired"] = True
-    signal.setitimer(signal.ITIMER_REAL, 5)      # keep interrupting if a handler in the runner swallows the exception
+    # keep interrupting if a handler in the runner swallows the exception
+    signal.setitimer(signal.ITIMER_PROF, 5)
     raise CaseTimeout()
 
 
 def guarded_observe(mod, ctx, inp):
-    """mod.observe(ctx, inp) under a wall-clock limit; returns (case, hung)."""
+    """mod.observe(ctx, inp) under a CPU-time limit; returns (case, hung)."""
     _hang["fired"] = False
-    old = signal.signal(signal.SIGALRM, _alarm)
-    signal.setitimer(signal.ITIMER_REAL, CASE_TIMEOUT)
+    old_p = signal.signal(signal.SIGPROF, _alarm)
+    old_r = signal.signal(signal.SIGALRM, _alarm)
+    signal.setitimer(signal.ITIMER_PROF, CASE_TIMEOUT)
+    signal.setitimer(signal.ITIMER_REAL, CASE_WALL_BACKSTOP)
     try:
         case = mod.observe(ctx, inp)
     except CaseTimeout:
         case = None
     finally:
+        signal.setitimer(signal.ITIMER_PROF, 0)
         signal.setitimer(signal.ITIMER_REAL, 0)
-        signal.signal(signal.SIGALRM, old)
+        signal.signal(signal.SIGPROF, old_p)
+        signal.signal(signal.SIGALRM, old_r)
     return case, _hang["fired"]
 
 
@@ -395,8 +404,8 @@ class Check:
         for stream, inp in inputs:
             case, hung = guarded_observe(mod, ctx, inp)
             if hung:
-                hangs.append((stream, inp, "", "", f"the implementation did not return within {CASE_TIMEOUT:.0f}s on this input "
-                              "(non-termination or a pathological slowdown; the unchanged tree answers every case in well under a second)"))
+                hangs.append((stream, inp, "", "", f"the implementation did not return within {CASE_TIMEOUT:.0f}s of CPU time on this input "
+                              "(non-termination or a pathological slowdown; the unchanged tree answers every case in a fraction of that)"))
                 if len(hangs) >= MAX_HANGS:
                     break
                 continue
@@ -570,7 +579,7 @@ class Check:
         case, hung = guarded_observe(self.mod, ctx, data["input"])
         if hung:
             print("input   :", describe(self.mod, data["input"]))
-            print(f"verdict : VIOLATION (the implementation did not return within {CASE_TIMEOUT:.0f}s)")
+            print(f"verdict : VIOLATION (the implementation did not return within {CASE_TIMEOUT:.0f}s of CPU time)")
             return 1
         line = sx_dump(case)
         ans = run_judge(self.prop, [line])[0]
